@@ -126,9 +126,9 @@ def own_violations(chk, prop):
     other = {}
     for v in chk.violations:
         p, _, key = v["key"].partition(":")
-        if not re.fullmatch(r"C\d\d", p):
+        if not re.fullmatch(r"(C\d\d|none)(\+C\d\d)*", p):
             keep.append(v)              # reported by this check's own harness, not by the shared replay
-        elif p == prop:
+        elif prop in p.split("+"):      # the divergence concerns this property (possibly others as well)
             v["key"] = key
             keep.append(v)
         else:
@@ -140,3 +140,6 @@ def own_violations(chk, prop):
     chk.violations = keep
     if other:
         chk.cov["divergences_belonging_to_other_properties"] = other
+        for k, o in other.items():
+            print("NOTE property=%s divergence from the model that does not concern this property (%d behaviours cut short there): %s: %s" % (
+                prop, o["count"], k, o["sample"][:200]))
